@@ -308,6 +308,17 @@ Theorem C02_barrier_unswitched_blocks : forall b e st e1 st1 e2 st2 a,
 Proof. exact unswitched_arrival_blocks. Qed.
 Print Assumptions C02_barrier_unswitched_blocks.
 
+(* REFUTED (known finding F5d): the unswitched, blocking arrival writes the waiter set, and the waiter set decides whether a
+   later arrival blocks or completes the group (and is the leader): blocking arrivals do not commute with the completing one,
+   so the omitted scheduling point loses the outcomes in which the task that arrives last is not the one that moved last
+   (program 'a0,b2 sp1;a0.ld;bw1;jn0|a0.st.1;bw1': 2 of the 4 sequentially consistent outcomes; tools/p_c02.py). *)
+Theorem C02_barrier_blocking_arrival_refuted :
+  writes_store (barrier_arrive_block 0)
+  /\ (exists e' s' ep, barrier_arrive_block 0 ex2 [OBarrier 2 0 [] [] []] = Some (e', s', [ep; 1%N]))
+  /\ (exists e' s' ep, barrier_arrive_block 0 ex2 [OBarrier 2 0 [1] [] []] = Some (e', s', [ep; 0%N])).
+Proof. exact (conj barrier_blocking_arrival_writes barrier_arrival_order_observable). Qed.
+Print Assumptions C02_barrier_blocking_arrival_refuted.
+
 (* ---- refuted: no scheduling point before a block that reads or writes a primitive's shared state ---- *)
 Theorem C02_sem_avail_refuted : forall fu jt bodies b ctx fin outer o r,
   nth b bodies [] = PSemAvail o :: r ->
